@@ -351,6 +351,7 @@ func TestVerifC16(t *testing.T) {
 		db.Close()
 		os.Remove(path)
 	}
+	vSameIdAdds(t, r, e)
 	vConcurrent(t, r, e)
 	r.Write()
 }
@@ -364,6 +365,68 @@ func TestVerifC16(t *testing.T) {
 // request before the due time, a recurring job not more often than its
 // occurrences, Get after Delete is NotFound, and at quiescent points (loop
 // parked) the two buckets agree key for key.
+// vSameIdAdds: several clients add a job under one (account, id) at the same time.  The service
+// refuses a job that exists, so exactly one Add is accepted, and the job has one entry in the
+// time index (removing it then leaves nothing behind).
+func vSameIdAdds(t *testing.T, r *Report, e Env) {
+	for round := 0; round < e.Pick(4, 20); round++ {
+		path := filepath.Join(e.Out, fmt.Sprintf("crolt-sameid-%d-%d.db", e.Batch, round))
+		os.Remove(path)
+		db, err := bolt.Open(path, 0600, &bolt.Options{Timeout: 5 * time.Second})
+		if err != nil {
+			t.Fatal(err)
+		}
+		c, err := NewCron(db, 2, 0, 700*time.Millisecond)
+		if err != nil {
+			t.Fatal(err)
+		}
+		const adders = 6
+		errs := make([]error, adders)
+		var wg sync.WaitGroup
+		gate := make(chan struct{})
+		for a := 0; a < adders; a++ {
+			wg.Add(1)
+			go func(a int) {
+				defer wg.Done()
+				j, jerr := NewJob("acc", "same", fmt.Sprintf("+%dh", 1+a))
+				if jerr != nil {
+					errs[a] = jerr
+					return
+				}
+				j.URL = "http://127.0.0.1:1/never"
+				<-gate
+				errs[a] = c.Add(j)
+			}(a)
+		}
+		close(gate)
+		wg.Wait()
+		accepted := 0
+		for _, err := range errs {
+			if err == nil {
+				accepted++
+			}
+		}
+		problems := vConsistent(c)
+		r.Case(true, fmt.Sprint("same-id-adds", e.Batch, round))
+		r.Count("crolt_same_id_add_bursts", 1)
+		if accepted != 1 || len(problems) > 0 {
+			r.Violate("", fmt.Sprintf("%d concurrent Adds of one job id: %d accepted (the service refuses a job that exists); table and time index: %v", adders, accepted, problems), J{"phase": "same-id-adds", "accepted": accepted, "problems": problems})
+		} else if err := c.Delete("acc", "same"); err != nil {
+			r.Violate("", "Delete after the burst failed: "+err.Error(), J{"phase": "same-id-adds"})
+		} else {
+			left := 0
+			for p := 0; p < c.Partitions; p++ {
+				c.Scan(fmt.Sprintf("time%d", p), func(b, k, v string) (bool, error) { left++; return false, nil })
+			}
+			if left != 0 {
+				r.Violate("", fmt.Sprintf("after the job was deleted %d entries of it are still in the time index (it will fire)", left), J{"phase": "same-id-adds"})
+			}
+		}
+		db.Close()
+		os.Remove(path)
+	}
+}
+
 func vConcurrent(t *testing.T, r *Report, e Env) {
 	nSeq := e.Pick(3, 14)
 	for si := 0; si < nSeq; si++ {
